@@ -8,9 +8,7 @@ import (
 	"sort"
 	"strings"
 	"sync"
-
 )
-
 
 // ---------------------------------------------------------------------------------------------
 // FUNC.model (C08): the default function table evaluated abstractly through
@@ -372,7 +370,9 @@ func (c *Ctx) funcxRun() map[string]*simpleVerdict {
 		expect("Contains", strs("b", "abc"), "Boolean", "false", `Contains("b","abc")`)
 		expect("Contains", strs("abc", ""), "Boolean", "true", `Contains("abc","")`)
 		ifArgs := func(cond bool) func() []mv {
-			return func() []mv { return []mv{h.variant("Boolean", cond), h.variant("Integer", int64(10)), h.variant("Integer", int64(20))} }
+			return func() []mv {
+				return []mv{h.variant("Boolean", cond), h.variant("Integer", int64(10)), h.variant("Integer", int64(20))}
+			}
 		}
 		expect("If", ifArgs(true), "Integer", "10", "If(true,10,20)")
 		expect("If", ifArgs(false), "Integer", "20", "If(false,10,20)")
